@@ -288,7 +288,7 @@ def specs_sir(tier):
 def specs_sis(tier):
     out = []
     thorough = tier != "quick"
-    K = 6 if thorough else 4
+    K = 6 if thorough else 5
     for n, es in _graphs(tier):
         nodes = range(n)
         big = n >= 5
